@@ -1,8 +1,8 @@
 """C18 - link diagrams: components, signs, resolutions and braid closures are correct."""
 from . import common as C
 
-RULE = ("cases = (a) every PD code of yui-link/resources/links selected by the tier (quick: all codes with <= 8 crossings, "
-        "a third of the 9-10 crossing codes and 1/40 of the rest; thorough: all 2214), each with the full battery: all "
+RULE = ("cases = (a) every PD code of yui-link/resources/links selected by the tier (quick: all codes with <= 10 crossings "
+        "and 1/8 of the 11-crossing codes; thorough: all 2214), each with the full battery: all "
         "observers (components, is_knot, crossing_signs, signed_crossing_nums, writhe, ori_pres_state, seifert_circles, "
         "first_edge, edges), one traversal, mirror, three resolved_by states (right / wrong length), resolved_at, a "
         "relabelled, a crossing-reordered and the mirrored variant (invariance evaluated on the implementation AND on the "
